@@ -30,10 +30,12 @@ DoBuild21 == \E ks \in Menu21 : \E used \in 1..Len(ks) :
                 \/ \E ud \in {0, 4} : Build21(ks, used, TRUE, K(ks[1].cls, 7), ud, 0)
 DoSetUserData == \E len \in {0, 8} : len # obj.ud.len /\ SetUserData(len)
 DoSetConstraints == \E c \in {0, 1} : SetConstraints(c)
-DoBuild1 == \E ks \in Menu1 : \E used \in 1..Len(ks) : \E img \in {0, 4660} : Build1(ks, used, img, 3)
+DoBuild1 == \E ks \in Menu1 : \E used \in 1..Len(ks) : \E img \in {0, 4660} : \E h \in {<<DefVer, DefFlags>>, <<<<1, 1>>, <<1, 0, 0, 128>>>>} : Build1(ks, used, img, 3, h[1], h[2])
 DoSetImageLength == \E n \in {2048} : SetImageLength(n)
 \* construction histories: FREE exploration (any builder, any origin, any slot, any of two keys, any form, any order, any repetition)
-KeysOfFl(fl) == IF Indexed(fl) \/ fl \in {"hab", "pfr1"} THEN {K("rsa2048", 1), K("rsa2048", 2)} ELSE {K("p256", 1), K("p256", 2)}
+\* (a PFR page of a v2.1 family: keys of BOTH hash widths - what the page held before may be the value of a list of the other width)
+KeysOfFl(fl) == IF Indexed(fl) \/ fl \in {"hab", "pfr1"} THEN {K("rsa2048", 1), K("rsa2048", 2)}
+                ELSE {K("p256", 1), K("p256", 2)} \cup (IF fl = "pfr21" THEN {K("p384", 1)} ELSE {})
 TInits(fl) == {<<>>} \cup {<<Slot(a, FALSE)>> : a \in KeysOfFl(fl)} \cup {<<Slot(a, FALSE), Slot(b, FALSE)>> : a, b \in KeysOfFl(fl)}
               \cup (IF Indexed(fl) THEN {} ELSE {<<Slot(a, TRUE), Slot(b, TRUE)>> : a, b \in KeysOfFl(fl)})
               \cup (IF fl \in {"ahab", "ahab2"} THEN {[i \in 1..4 |-> Slot(K("p256", i), FALSE)]} ELSE {})
